@@ -4,4 +4,9 @@ go 1.21.5
 
 require github.com/koestler/go-victron v0.0.0
 
+require (
+	github.com/tarm/serial v0.0.0-20180830185346-98f6abe2eb07 // indirect
+	golang.org/x/sys v0.1.0 // indirect
+)
+
 replace github.com/koestler/go-victron => /repo
